@@ -32,8 +32,8 @@ example : received (.varint (some 2)) [.data [3, 9, 0x80, 0x80], .err, .data [0x
 /-- *pre-fix*: the checked slice does catch the defect — with the 1024-byte initial buffer of the old
 constructor, `Identity(2048)` panics on the first poll. -/
 example : (pollNext (.identity 2048) ⟨1024, [], 0, none, []⟩ [.data [7]]).1.isPanic = true := by decide
-/-- *pre-fix*: without the cursor reset, polling again after an over-long prefix indexes `size_vec[10..11]`. -/
-example : (pollNext (.varint none) ⟨0, [], 10, none, List.replicate 10 0x80⟩ [.data [1]]).1.isPanic = true := by decide
+/-- *pre-fix*: without the cursor reset, polling again after an over-long prefix indexes past the end of `size_vec`. -/
+example : (pollNext (.varint none) ⟨0, [], SIZE_VEC_LEN, none, List.replicate SIZE_VEC_LEN 0x80⟩ [.data [1]]).1.isPanic = true := by decide
 
 /-- **Allocation bound.** With a maximum configured, in every state the reader can reach — whatever
 bytes a peer sends — `read_buffer` is never longer than `max` (or the fixed initial buffer), and a
